@@ -121,7 +121,11 @@ SPEC = {
         "LinkTo concurrent with Trigger: linkTo under its mutex (acquire, Unhook, Hook+store+release) against iterating triggers of the "
         "target and user Hook/Unhook callers, registry with frozen next pointers (Hive/Model/EventsRelink.lean)",
         "promise.Event1 Trigger/OnTrigger/unsubscribe with every critical section and every callback invocation as one step",
-        "valuenotifier Notifier/Listener: sequential histories with repeated values; Wait's flag check, select and re-check as separate steps",
+        "valuenotifier Notifier/Listener: sequential histories with repeated values; Wait's flag check, select and re-check as separate steps; "
+        "the entry's reference count and per-listener deregistered flags with Deregister = atomic Swap / close / removeListener for any "
+        "number of overlapping callers",
+        "pooled hook delivery: submitting triggers, workers, queue, pending-tasks counter (Hive/Model/EventsPool.lean)",
+        "event.Hook / Hook.Unhook / ForEach on the pointer-level ordered map + hook counter as a concurrent system, simulated by the abstract registry",
         "NOT modelled: the generic arities other than Event1 (generated from one template), "
         "link cycles (the generator keeps links acyclic, a cycle recurses forever in the code), uint64 wrap-around of the counters, "
         "shrinkingmap internals, the worker pool itself (C16) — pooled hooks are observed after the pool drained"],
@@ -141,17 +145,26 @@ SPEC = {
                 "_frozen_pointers / _queries (pointer-level model of orderedmap.OrderedMap, all histories of Set/Delete/Clear: well-formed "
                 "doubly linked list + dictionary + size; removed elements are never written again and keep the neighbours they had when "
                 "removed — the assumptions of the weak-iteration model). Notifier: C15_notifier (sequential histories with repeated "
-                "values) and C15_notifier_wait_race (any interleaving of Wait/Deregister/Notify/cancel): success only if Notify(value) lies "
-                "between creation and deregistration; witnesses of the two repaired defects replayed on the code. Tie: differential runs of "
+                "values), C15_notifier_wait_race (any interleaving of Wait/Deregister/Notify/cancel incl. overlapping Deregister calls of "
+                "one listener; removeListener decrements the reference count unconditionally) and C15_notifier_count_exact (the count is "
+                "exact under any concurrency - derived from the atomic Swap): success only if Notify(value) lies "
+                "between creation and deregistration; witnesses of the two repaired defects replayed on the code, and of the dependence on "
+                "the atomic Swap. Pooled hooks: C15_pooled_drained (any submitting triggers and workers: when the pending counter is 0 the "
+                "executed invocations are a permutation of the submitted ones). Registry refinement: C15_registry_simulation (pointer-level "
+                "map + hook counter vs abstract registry, every iterator read agrees) and C15_weak_iteration_code (weak iteration on the "
+                "code-level concurrent system by step-by-step simulation). Tie: differential runs of "
                 "the ev/it/mn/pr/vn/om machines (it: Hook/Unhook/LinkTo from inside callbacks; mn: nested triggers on the counter protocol; "
                 "om: the real OrderedMap with Set/Delete/Clear from inside ForEach/ForEachReverse consumers), "
                 "the ar stream over the arity twins Event..Event9 incl. event- and hook-level worker pools (gated single-worker pools, "
                 "oracle pool-routing), forced schedules through the verif hook (vr), stress traces "
-                "(mt/pt/hw/hc/lk/lm/vc) judged by Lean trace predicates, 23 regenerated synchronisation skeletons / type facts, the pinned "
-                "source text of the orderedmap bodies, the uniformity obligation of the ten arity twins, independent Go oracles for every clause.",
+                "(mt/pt/hw/hc/lk/lm/uu/vd/vy/vc/vx; vx = overlapping deregistrations of one listener, vy = Notify concurrent with creation / "
+                "last deregistration / Wait with a logical-clock interval oracle) judged by Lean trace predicates / the notifier machine, "
+                "a harness supervisor that turns a panic on a pool worker into a fatal-crash finding with the case's op lines, 24 regenerated synchronisation skeletons / type facts, the pinned "
+                "source text of the orderedmap bodies, the uniformity obligations of the ten arity twins (bodies, type declarations, constructors, signatures, list of top-level "
+                "declarations), independent Go oracles for every clause.",
         "note": "Trusted: Lean kernel; the hand-written models (tied as described); Go runtime semantics of atomics, select and channels as "
                 "written into the protocol models; a trigger overlapping a re-link is only bounded (0..once per link hook), "
-                "pooled delivery assumes C16's conservation; arities other than Event1 through the uniformity obligation; link cycles not modelled.",
+                "pooled delivery: own small pool model (queue, workers, pending counter), the real pool is C16's; arities other than Event1 through the uniformity obligation; link cycles not modelled.",
         "technique": "Lean 4 invariant proofs over all histories / all interleavings (Hive.Conc.Sys) + differential correspondence, "
                      "forced schedules and trace predicates",
     },
